@@ -338,13 +338,46 @@ func (prop) Generate(rng *rand.Rand, tier string) []corr.Case {
 			}
 			_ = tag
 			ops = append(ops, fmt.Sprintf("dec %s %s", s.Name, corr.Hex(b)), fmt.Sprintf("decs %s %s", s.Name, corr.Hex(b)))
+			if i%3 == 1 {
+				// one key / length prefix replaced by a large shortest-form varint whose low bits are the
+				// expected key / length (bigvarint.go), in a fully populated canonical encoding
+				if m, _, ok := BigVarint(rng, s, GenEncoding(rng, s, 0, true), ""); ok {
+					ops = append(ops, fmt.Sprintf("dec %s %s", s.Name, corr.Hex(m)), fmt.Sprintf("decs %s %s", s.Name, corr.Hex(m)))
+				}
+			}
 		}
 		cases = append(cases, corr.Case{Ops: ops, Tag: "schema"})
 	}
 	// entry points (NewBlock / NewBlockHeader / NewTransaction / NewBlockAsset) on envelopes with one
 	// non-canonical element: entry.go
 	cases = append(cases, genEntryCases(rng, tier)...)
+	// objects that do not come from bytes (JSON, Copy, field changes, Sign) and their cached ID / size: life.go
+	cases = append(cases, genLifeCases(rng, tier)...)
 	return cases
+}
+
+// FlatCanonical: only uint64 / bool / bytes / string / [][]byte fields, every single-valued one read
+// strictly by DecodeStrict (C08Flat && C08CanonKind of Props/C08_Msg.lean): strict decoding accepts
+// only the canonical bytes.
+func FlatCanonical(s *Schema) bool {
+	if s == nil || len(s.Enc) == 0 || len(s.Enc) != len(s.DecStrict) || len(s.Enc) != len(s.Dec) {
+		return false
+	}
+	for i, f := range s.Enc {
+		switch f.Kind {
+		case "uint", "bool", "bytes", "string":
+			if !s.DecStrict[i].Strict {
+				return false
+			}
+		case "bytesArr":
+		default:
+			return false
+		}
+		if s.DecStrict[i].Num != f.Num || s.DecStrict[i].Kind != f.Kind || s.Dec[i].Num != f.Num || s.Dec[i].Kind != f.Kind || (i > 0 && s.Enc[i-1].Num >= f.Num) {
+			return false
+		}
+	}
+	return true
 }
 
 // ErrName maps a Go codec error to the model's error enum.
@@ -495,6 +528,11 @@ func (prop) RunImpl(c corr.Case) ([]string, []corr.Fail) {
 				if w[0] == "decs" && (w[1] == "blockchain.Transaction" || w[1] == "blockchain.SigningTransaction") && !bytes.Equal(re, b) {
 					fails = append(fails, corr.Fail{Sig: "strict-accepts-non-canonical-transaction", Detail: fmt.Sprintf("%s re-encodes to %x", op, re), Op: i})
 				}
+				// oracle 3b: the same for every flat struct of canonical kinds (the class for which
+				// Props/C08_Msg.lean C08_strict_canonical_flat proves it of the model)
+				if w[0] == "decs" && FlatCanonical(ByName[w[1]]) && !bytes.Equal(re, b) && w[1] != "blockchain.Transaction" && w[1] != "blockchain.SigningTransaction" {
+					fails = append(fails, corr.Fail{Sig: "strict-accepts-non-canonical-flat-struct", Detail: fmt.Sprintf("%s re-encodes to %x", op, re), Op: i})
+				}
 				// oracle 5: block header IDs are unchanged by re-encoding (the ID is the hash of the canonical
 				// encoding, whatever accepted bytes the header arrived as)
 				if w[0] == "dec" && w[1] == "blockchain.BlockHeader" {
@@ -537,6 +575,11 @@ func (prop) RunImpl(c corr.Case) ([]string, []corr.Fail) {
 				fails = append(fails, fs...)
 				break
 			}
+			if r, fs, ok := runLife(i, op, w); ok {
+				out = append(out, r)
+				fails = append(fails, fs...)
+				break
+			}
 			out = append(out, "bad-op")
 		}
 	}
@@ -545,6 +588,22 @@ func (prop) RunImpl(c corr.Case) ([]string, []corr.Fail) {
 
 func (prop) Classify(c corr.Case, out []string) string {
 	kinds := map[string]bool{}
+	if c.Tag == "life" {
+		// histories of objects with a cached ID: non-trivial = an Init / Sign after a JSON source or a change
+		for _, op := range c.Ops {
+			w := strings.Fields(op)
+			if w[0] == "life" && len(w) > 4 {
+				kinds[strings.SplitN(w[3], "=", 2)[0]] = true
+				for _, st := range w[4:] {
+					kinds[strings.SplitN(st, "=", 2)[0]] = true
+				}
+			}
+		}
+		if !kinds["init"] || len(kinds) < 3 {
+			return ""
+		}
+		return fmt.Sprintf("life-%d-step-kinds", len(kinds))
+	}
 	for _, o := range out[1:] {
 		f := strings.Fields(o)
 		if f[0] == "ok" {
